@@ -20,6 +20,16 @@ for e in idx:
         txt=open(f"{d}/{f}",errors='replace').read()
         viol=[l.strip() for l in txt.splitlines() if l.startswith('  C')]
         checks[m.group(1)]={"caught":'VIOLATION property=' in txt,"first_violation":viol[0][:300] if viol else None}
+    if e['id'][0]=='w':
+        # round 6: the runs after strengthening were made against a scratch copy of /repo's tree with the patch
+        # applied (SEED_ONLY=wtchecks, VERIF_REPO_DIR): where one exists it is the later run and is what counts
+        for f in sorted(os.listdir(d)):
+            m=re.match(r'wtcheck_(C\d+)\.txt',f)
+            if not m: continue
+            txt=open(f"{d}/{f}",errors='replace').read()
+            viol=[l.strip() for l in txt.splitlines() if l.startswith('  C')]
+            if 'VIOLATION property=' in txt:
+                checks[m.group(1)]={"caught":True,"first_violation":viol[0][:300] if viol else None,"run":"scratch copy (wtcheck), after strengthening"+("; tree before the repair 559d0ff" if e['id'].startswith('w13') else "")}
     suite=tail('suite_with.txt',2)
     meta={
       "id":e['id'],"property":e['property'],"round":{"s":1,"r":2,"t":3,"u":4,"v":5,"w":6}[e["id"][0]],
